@@ -37,6 +37,55 @@ type config struct {
 	norm  []string // lower-case, no leading dot (what the oracle judges with)
 	raw   []string // as configured minus the leading dot, case preserved (what the generators build hosts from)
 	good  []string // hosts inside the root domains
+
+	// server options (zero values = what every stack used before: default scheme, host "sso-auth.<first root>", no cookie domain)
+	Option       bool
+	Scheme       string
+	AuthHost     string
+	CookieDomain string
+}
+
+// optKinds: authenticators built with the other documented server options (SERVER_SCHEME, SERVER_HOST with
+// another name / with a port / outside the root domains, cookie domain), over several / one / nested roots.
+var optKinds = []string{"http-single", "http-multi-hostport-cookiedomain", "https-other-host-cookiedomain", "http-nested-roots", "https-hostport", "http-auth-outside-roots", "http-three-label-cookiedomain", "https-explicit"}
+
+func genOptConfig(seed int64, k int) *config {
+	r := vh.CaseRNG(seed, "c07-optconfig", k)
+	c := &config{Index: 1000 + k, Kind: "opt-" + optKinds[k%len(optKinds)], Option: true}
+	w, w2 := "sso", randWord(r, 4)
+	if k >= len(optKinds) {
+		w = randWord(r, 3+r.Intn(4))
+	}
+	switch optKinds[k%len(optKinds)] {
+	case "http-single":
+		c.Roots, c.Scheme = []string{w + ".test"}, "http"
+	case "http-multi-hostport-cookiedomain":
+		c.Roots, c.Scheme = []string{w + ".test", "." + w2 + ".example"}, "http"
+		c.AuthHost, c.CookieDomain = "sso-auth."+w+".test:8080", w+".test"
+	case "https-other-host-cookiedomain":
+		c.Roots, c.Scheme = []string{"." + w + ".example.com", w2 + ".test"}, "https"
+		c.AuthHost, c.CookieDomain = "login."+w2+".test", w2+".test"
+	case "http-nested-roots":
+		c.Roots, c.Scheme = []string{"apps." + w + ".test", ".dev.apps." + w2 + ".test"}, "http"
+	case "https-hostport":
+		c.Roots, c.Scheme = []string{w + ".test"}, "https"
+		c.AuthHost = "sso-auth." + w + ".test:8443"
+	case "http-auth-outside-roots":
+		c.Roots, c.Scheme = []string{"apps." + w + ".test"}, "http"
+		c.AuthHost = "sso-auth." + w2 + "-idp.example"
+	case "http-three-label-cookiedomain":
+		c.Roots, c.Scheme = []string{w + ".example.com"}, "http"
+		c.CookieDomain = w + ".example.com"
+	case "https-explicit":
+		c.Roots, c.Scheme = []string{w + ".test", w2 + ".example.org", "a." + w2 + ".example.net"}, "https"
+	}
+	c.norm = normRoots(c.Roots)
+	for _, root := range c.Roots {
+		n := strings.TrimSuffix(strings.TrimLeft(root, "."), ".")
+		c.raw = append(c.raw, n)
+		c.good = append(c.good, "app."+n, n, "x-1.y."+n)
+	}
+	return c
 }
 
 const letters = "abcdefghijklmnopqrstuvwxyz"
@@ -251,6 +300,14 @@ type runner struct {
 	dump bool
 	pool *cookiePool
 	alt  map[string]string // wrong HMAC keys by sig-variant name
+
+	ownHost, ownPort string // the authenticator's external host, lower case, split
+	scheme           string // its configured scheme ("https" when left at the default)
+}
+
+// isOwn: the reading names the authenticator's own external host.
+func (rn *runner) isOwn(rd reading) bool {
+	return rd.Kind == "authority" && rd.Host == rn.ownHost && rd.Port == rn.ownPort
 }
 
 type sigSet struct {
@@ -635,6 +692,10 @@ func (rn *runner) runCase(i int) {
 		// signature / timestamp sweeps mostly ride on URIs that pass the domain gate
 		ti = goodTemplates[r.Intn(len(goodTemplates))]
 	}
+	if cfg.Option && r.Intn(100) < 35 {
+		// stacks with non-default server options: what a "development convenience" would let through
+		ti = devTemplates[r.Intn(len(devTemplates))]
+	}
 	base := time.Now().Unix()
 	kc := kase{Index: i, Config: cfg.Kind, Roots: cfg.Roots, Endpoint: ep, Mode: map[bool]string{true: "valid-signature", false: "signature-sweep"}[modeA]}
 	rep.Eval()
@@ -669,6 +730,9 @@ func (rn *runner) observe(kc *kase, rs *sut.Resp, extra string) bool {
 	}
 	kc.Status = rs.Status
 	rep.Count(fmt.Sprintf("status_%s_%d", kc.Endpoint+kc.Step, rs.Status), 1)
+	if kc.Family == "dev-convenience" && (kc.Mode == "valid-signature" || kc.Endpoint == "callback" && kc.Cookie == "csrf-ok") && kc.Step == "" {
+		rep.Count("dev_target_cases_"+kc.Endpoint+"_scheme_"+rn.scheme, 1)
+	}
 	rep.Distinct(strings.Join([]string{kc.Endpoint, kc.Step, kc.Template, kc.Position, kc.Dup, kc.Place, kc.SigVar, kc.TSVar, kc.Cookie, kc.Method, kc.Wire, kc.Config, extra}, "|"))
 	if kc.Index%1499 == 0 {
 		c := *kc
@@ -1039,7 +1103,7 @@ func (rn *runner) caseStart(i int, r *rand.Rand, base int64, modeA bool, ti int,
 	rn.checkLocation(i, "callback", fam, rs2, false, kc2)
 	// continue only when the browser would come back to the authenticator's own sign_in
 	rd := readBrowser(rs2.Location(), "https")
-	if rd.Kind != "authority" || rd.Host != lowerASCII(as.Host) || rd.Port != "" {
+	if !rn.isOwn(rd) {
 		rep.Count("flow_callback_target_not_authenticator", 1)
 		return
 	}
@@ -1221,6 +1285,7 @@ func TestProp(t *testing.T) {
 	rep.Rule("cases walk (stride) over endpoint{sign_in,sign_out,start,callback,start->callback->sign_in flow, forged-state callback->sign_in flow, start->tampered state->callback->sign_in flow (the last three judged as a whole against what the client supplied)} x redirect-URI template (" + strconv.Itoa(len(templates)) + " parser-differential shapes in 11 families incl. look-alikes derived from the configured roots (every inner dot replaced/deleted)) x mode{valid signature, signature/timestamp sweep} per root-domain configuration {single, leading dot, multiple, nested, nested+multiple, three-label, two-label public suffix, five-label, regexp metacharacter in the configured string, upper-case}; signature variant (41: encodings, mismatches, other hashes, and well-formed HMACs under 21 other specific keys), timestamp variant (30), parameter duplication (9), placement (query/body), cookie state, method and wire form are drawn per case. distinct = the tuple (endpoint, step, template, position, duplication, placement, sig variant, ts variant, cookie, method, wire, config kind) of every request sso answered. Stream c07-any (universal clause): a strided walk over route{callback, sign_in, sign_out, start, profile, validate, redeem, refresh, static, robots.txt, ping, /, unknown} x template x identity-provider error slot{absent, the 16 RFC 6749 4.1.2.1 / OIDC 3.1.2.6 codes, unknown word, case variant, padded, empty, duplicated, URL, vendor code}; path spelling (canonical / 20 non-canonical: no slug, wrong slug, case, slashes, dot segments, encoded, foreign-host prefixes, absolute-form), shape of the redirect material {top level, redirect_sig, nested in redirect_uri, tricky outer, in the state (direct / nested / tricky outer), other URL-valued parameter, error_uri} plus an optional second validly signed shape, signed / swept / unsigned, code, error_description, error_uri, CSRF cookie, session cookie, method, body/query placement, Host / X-Forwarded-Host and Accept are drawn per case; every response is judged by the same route-independent clauses (U1 domain of every Location / Refresh reading, U2 signature for IdP logins, minted codes and sign-out redirects); distinct = that tuple")
 	rep.Assume("the fake IdP answers as scripted; Go's net/http client hands the Location header through unmodified (apart from trimming optional whitespace)")
 	rep.Assume("timestamps are generated at fixed offsets from the instant the case is built (before its first request; same clock as the authenticator). Stale side: no guard band - an offset of 301 s or more is already outside the window when signed and only grows. Young side: offsets of 290 ... 300 s are don't-cares (a request takes far less than 10 s; exactly 300 s is the > versus >= question); the fresh class stays >= 60 s away from the edge")
+	rep.Assume("authenticator configuration is an input: besides the ten root-domain configurations (default server options) both streams run, at reduced size, on stacks with SERVER_SCHEME http / https, another external host name, a port in the host, a host outside the root domains, a cookie domain, over one / several / nested roots; on those stacks 35 % of the cases aim at loopback, unspecified, private and localhost-style targets, which lie outside every root domain whatever the options")
 	rep.Assume("future timestamps, hosts with non-ASCII characters whose IDNA mapping decides membership, and URL schemes are don't-cares (counted, not judged)")
 
 	if bad := readerSelfTest(); len(bad) > 0 {
@@ -1263,23 +1328,52 @@ func TestProp(t *testing.T) {
 		workers = 2
 	}
 	dump := os.Getenv("VERIF_C07_DUMP") != ""
-	vh.ForEach(nConfigs, par, func() int {
+	// stacks nConfigs ... nConfigs+nOpt-1: the other documented server options, at reduced size
+	nOpt := env.Pick(6, 8)
+	perOpt := env.Pick(280, 2000)
+	perOptAny := env.Pick(320, 1500)
+	span := func(ci, per, perO int) (lo, n int) {
+		if ci < nConfigs {
+			return ci * per, per
+		}
+		return nConfigs*per + (ci-nConfigs)*perO, perO
+	}
+	stackOf := func(idx, per, perO int) int {
+		if idx < nConfigs*per {
+			return idx / per
+		}
+		return nConfigs + (idx-nConfigs*per)/perO
+	}
+	vh.ForEach(nConfigs+nOpt, par, func() int {
 		if only >= 0 {
-			return only / perConfig
+			return stackOf(only, perConfig, perOpt)
 		}
 		if onlyAny >= 0 {
-			return onlyAny / perConfigAny
+			return stackOf(onlyAny, perConfigAny, perOptAny)
 		}
 		return -1
 	}(), func(ci int) {
-		cfg := genConfig(env.Seed, ci)
-		as, err := sut.NewAuthStack(sut.AuthOpts{ProxyRootDomains: cfg.Roots, Host: "sso-auth." + cfg.raw[0], ClientSecret: "Proxy-Client-Secret-7Qz"})
+		var cfg *config
+		if ci < nConfigs {
+			cfg = genConfig(env.Seed, ci)
+		} else {
+			cfg = genOptConfig(env.Seed, ci-nConfigs)
+		}
+		host := "sso-auth." + cfg.raw[0]
+		if cfg.AuthHost != "" {
+			host = cfg.AuthHost
+		}
+		as, err := sut.NewAuthStack(sut.AuthOpts{ProxyRootDomains: cfg.Roots, Host: host, ClientSecret: "Proxy-Client-Secret-7Qz", Scheme: cfg.Scheme, CookieDomain: cfg.CookieDomain})
 		if err != nil {
 			rep.Inconclusive("authenticator stack did not start: " + err.Error())
 			return
 		}
 		defer as.Close()
 		rn := &runner{rep: rep, env: env, cfg: cfg, as: as, dump: dump}
+		rn.ownHost, rn.scheme = lowerASCII(as.Host), as.Cfg.ServerConfig.Scheme
+		if k := strings.LastIndexByte(rn.ownHost, ':'); k >= 0 {
+			rn.ownHost, rn.ownPort = rn.ownHost[:k], rn.ownHost[k+1:]
+		}
 		hp := as.IdP.Host()
 		if k := strings.LastIndexByte(hp, ':'); k >= 0 {
 			rn.idpH, rn.idpP = hp[:k], hp[k+1:]
@@ -1287,21 +1381,22 @@ func TestProp(t *testing.T) {
 		rn.alt = altKeys(as.ClientSecret, as.ClientID, as.IdPClientID, as.IdPSecret, as.Cfg.SessionConfig.CookieConfig.Secret, as.Cfg.SessionConfig.Key)
 		rn.buildPool()
 		rep.SetAdd("root_domain_configs", strings.Join(cfg.Roots, ","))
-		lo := ci * perConfig
+		rep.SetAdd("server_option_configs", cfg.Kind+"|scheme="+rn.scheme+"|host="+as.Host+"|cookie-domain="+cfg.CookieDomain)
+		lo, n := span(ci, perConfig, perOpt)
 		o := -1
 		if only >= 0 {
 			o = only - lo
 		}
 		if !skipAll {
-			vh.ForEach(perConfig, workers, o, func(j int) { rn.runCase(lo + j) })
+			vh.ForEach(n, workers, o, func(j int) { rn.runCase(lo + j) })
 		}
 		if !skipAny {
-			loAny := ci * perConfigAny
+			loAny, nAny := span(ci, perConfigAny, perOptAny)
 			oAny := -1
 			if onlyAny >= 0 {
 				oAny = onlyAny - loAny
 			}
-			vh.ForEach(perConfigAny, workers, oAny, func(j int) { rn.runAny(loAny + j) })
+			vh.ForEach(nAny, workers, oAny, func(j int) { rn.runAny(loAny + j) })
 		}
 		if n := as.ErrLog.Panics(); n > 0 {
 			rep.Count("handler_panics", n)
@@ -1315,7 +1410,7 @@ func TestProp(t *testing.T) {
 	rep.Extra("any_callback_idp_error_with_own_state_foreign_target_by_code", armedByCode())
 	rep.Count("any_idp_error_classes_reaching_callback_with_own_state_foreign_target", allArmed)
 	if !replaying {
-		rep.Floor("any_requests", perConfigAny*nConfigs*9/10)
+		rep.Floor("any_requests", (perConfigAny*nConfigs+perOptAny*nOpt)*9/10)
 		rep.Floor("any_3xx", 300)
 		rep.Floor("any_redirect_values_inspected", 300)
 		rep.Floor("any_callback_idp_error_with_own_state", 150)
@@ -1347,6 +1442,13 @@ func TestProp(t *testing.T) {
 		}
 		rep.Floor("extreme_ts_near_min_int64_judged", 30)
 		rep.Floor("extreme_ts_refused", 100)
+		// loopback / private / localhost targets under a valid signature, on stacks served over http and https
+		for _, sch := range []string{"http", "https"} {
+			for _, f := range []string{"sign_in", "sign_out", "start", "callback"} {
+				rep.Floor("dev_target_cases_"+f+"_scheme_"+sch, 10)
+				rep.Floor("any_dev_target_cases_"+f+"_scheme_"+sch, 4)
+			}
+		}
 	}
 	if !replaying {
 		rep.Floor("code_redirects", 50)
